@@ -121,6 +121,10 @@ process_data(struct video_filter_s* self,
                         .shape = shape,
                         .timestamps = in->timestamps,
                     };
+                    // The region comes from a ring buffer that is reused: it
+                    // holds whatever was written there a lap ago. The sums
+                    // have to start from zero.
+                    memset((*accumulator)->data, 0, bytes_of_image(&shape));
                     CHECK(accumulate(*accumulator, in));
                     *frame_count = 1;
                 }
